@@ -168,11 +168,13 @@ fn create_diagnostic(err: &SplError, text: &str) -> Diagnostic {
 pub fn as_position(index: usize, text: &str) -> Position {
     let mut line = 0;
     let mut character = 0;
-    for (i, c) in text.char_indices() {
+    let mut chars = text.char_indices().peekable();
+    while let Some((i, c)) = chars.next() {
         if i == index {
             break;
         }
-        if c == '\n' {
+        // a line ends with a line feed, or with a carriage return that is not part of `\r\n`
+        if c == '\n' || (c == '\r' && !matches!(chars.peek(), Some((_, '\n')))) {
             line += 1;
             character = 0;
         } else {
@@ -212,14 +214,14 @@ pub fn get_insertion_index(position: &Position, text: &str) -> usize {
         if line == position.line && character >= position.character {
             return i;
         }
-        // a carriage return in front of a line feed belongs to the line break
-        let is_line_break = c == '\n' || (c == '\r' && matches!(chars.peek(), Some((_, '\n'))));
+        // a line break is `\n`, `\r\n` or a carriage return on its own
+        let is_line_break = c == '\n' || c == '\r';
         if is_line_break && line == position.line {
             // a character offset behind the end of the line means the end of the line,
             // which is in front of its line break
             return i;
         }
-        if c == '\n' {
+        if c == '\n' || (c == '\r' && !matches!(chars.peek(), Some((_, '\n')))) {
             line += 1;
             character = 0;
         } else if !is_line_break {
